@@ -2,7 +2,10 @@
 
 usage: c14_bobrun.py <repo> <project dir> <plan.json> <report.json>
 
-plan   = [{"writes": {relpath: text}, "args": [bob dev arguments]}, ...]
+plan   = [{"writes": {relpath: text}, "remove": [relpath], "git": [{"path", "files", "msg"}],
+           "wsedits": [{"recipe", "rel", "text"}], "args": [bob dev arguments]}, ...]
+           git: commit files into a local repository (created on first use); wsedits: change a file inside the
+           checkout workspace of a recipe (a developer's local modification)
 report = {"bob": version, "invocations": [{"rc": "ok"|error text, "steps": [...]}, ...]}
 
 After every invocation the package graph is re-parsed in-process (same recipe as `bob query-path`) and every
@@ -33,7 +36,28 @@ def main():
     plan = json.load(open(plan_file))
     report = {"bob": BOB_VERSION, "invocations": []}
     prev_ids = {}
+    last_steps = []
+
+    # which steps does an invocation execute?  (observed from outside, no source hook)
+    from bob.builder import LocalBuilder
+    executed = []
+    orig_run = LocalBuilder._runShell
+
+    async def run_shell(self, step, scriptName, *a, **kw):
+        executed.append([step.getWorkspacePath(), scriptName])
+        return await orig_run(self, step, scriptName, *a, **kw)
+    LocalBuilder._runShell = run_shell
+
     for inv in plan:
+        del executed[:]
+        for g in inv.get("git", []):
+            git_commit(os.path.join(proj, g["path"]), g["files"], g["msg"])
+        for e in inv.get("wsedits", []):
+            for st in last_steps:
+                if st["label"] == "src" and st["recipe"] == e["recipe"] and st["exists"]:
+                    with open(os.path.join(proj, st["ws"], e["rel"]), "w") as f:
+                        f.write(e["text"])
+                    break
         for rel in inv.get("remove", []):
             p = os.path.join(proj, rel)
             if os.path.isdir(p):
@@ -62,11 +86,54 @@ def main():
         finally:
             bob.state.finalize()
             gc.collect()
-        report["invocations"].append({"rc": rc, "steps": steps})
+        last_steps = steps
+        report["invocations"].append({"rc": rc, "steps": steps, "executed": [list(x) for x in executed]})
         # publish what is known so far (the parent may stop this process when its time is up)
         with open(report_file + ".tmp", "w") as f:
             json.dump(report, f)
         os.replace(report_file + ".tmp", report_file)
+
+
+def git(cwd, *args):
+    import subprocess
+    return subprocess.run(["git", "-c", "user.name=verif", "-c", "user.email=verif@example.org", "-c", "init.defaultBranch=master",
+                           "-c", "protocol.file.allow=always"] + list(args), cwd=cwd, stdout=subprocess.PIPE,
+                          stderr=subprocess.STDOUT, universal_newlines=True, check=True).stdout
+
+
+def git_commit(path, files, msg):
+    if not os.path.isdir(os.path.join(path, ".git")):
+        os.makedirs(path, exist_ok=True)
+        git(path, "init", "-q", "-b", "master")
+    for rel, text in files.items():
+        os.makedirs(os.path.dirname(os.path.join(path, rel)) or path, exist_ok=True)
+        with open(os.path.join(path, rel), "w") as f:
+            f.write(text)
+    git(path, "add", "-A")
+    git(path, "commit", "-q", "-m", msg)
+
+
+def scm_state(ws, spec):
+    """the actual state of one SCM checkout, determined without bob.scm.*Audit"""
+    from bob.utils import hashDirectory
+    typ, d, extra = spec
+    if typ == "import":
+        return {"type": "import", "dir": d, "url": extra.get("url"),
+                "digest": {"algorithm": "sha1", "value": hashDirectory(os.path.join(ws, d)).hex()}}
+    if typ == "url":
+        with open(os.path.join(ws, d), "rb") as f:
+            h = hashlib.sha1(f.read()).hexdigest()
+        return {"type": "url", "dir": d, "digest": {"algorithm": "sha1", "value": h}, "url": extra.get("url")}
+    if typ == "git":
+        top = os.path.join(ws, d)
+        remotes = {}
+        for l in git(top, "remote", "-v").splitlines():
+            if l.endswith("(fetch)"):
+                name, url = l[:-8].split("\t")
+                remotes[name] = url
+        return {"type": "git", "dir": d, "remotes": remotes, "commit": git(top, "rev-parse", "HEAD").strip(),
+                "dirty": bool(git(top, "status", "--porcelain", "--untracked-files=no").strip())}
+    return {"type": typ}
 
 
 def describe(proj, sandbox, prev_ids):
@@ -194,11 +261,11 @@ def describe(proj, sandbox, prev_ids):
             if step.isCheckoutStep() and d["exists"]:
                 for scm in step.getScmList():
                     spec = scm.getAuditSpec()
-                    if spec is not None and spec[0] == "import":
-                        d["scms"].append({"type": "import", "dir": spec[1], "url": spec[2].get("url"),
-                                          "digest": {"algorithm": "sha1", "value": hashDirectory(os.path.join(ws, spec[1])).hex()}})
-                    elif spec is not None:
-                        d["scms"].append({"type": spec[0]})
+                    if spec is not None:
+                        try:
+                            d["scms"].append(scm_state(ws, spec))
+                        except Exception as e:  # noqa
+                            d["scms"].append({"type": spec[0], "error": "%s: %s" % (type(e).__name__, e)})
             ap = os.path.join(os.path.dirname(ws), "audit.json.gz")
             d["audit_path"] = ap
             if os.path.lexists(ap):
